@@ -52,6 +52,10 @@ def run(rep, repo, tier):
     check_nocrit(rep, r0)
     from .c16 import check_helper
     check_helper(rep, repo, repo.method('Options_parser', '_get_ordered_optimisations'), len(spec.CRITERIA), r1='C04.R5', r3='C04.R5', r6='C04.R5')
+    # R3 (one dispatch per element, with that element's own arguments): a criterion given without optional arguments must not
+    # inherit those of the one before it - the sequence would then optimise something else at that position
+    from .c16 import check_extras_isolation
+    check_extras_isolation(rep, repo, tier, 'C04.R3')
 
 
 def check_run(rep, r, crit):
